@@ -144,7 +144,7 @@ func flipRate(r float64) float64 {
 }
 
 // WriteCounterFile adds a counter file produced by the independent encoder to dir.
-// kind: 0 ordinary, 1 empty (no counters), 2 unreadable, 3 second file of a build.
+// kind: 0 ordinary, 1 empty (no counters), 2 unreadable, 3 second file of a build, 4 recorded end not at midnight.
 func WriteCounterFile(t *simrt.Tape, s *simrt.Sim, dir string, begin time.Time, days int, kind int) {
 	pp := ProgramPool[t.Draw(len(ProgramPool))]
 	gv := GoVersionPool[t.Draw(len(GoVersionPool))]
@@ -154,8 +154,15 @@ func WriteCounterFile(t *simrt.Tape, s *simrt.Sim, dir string, begin time.Time, 
 	}
 	plat := PlatformPool[t.Draw(len(PlatformPool))]
 	bday := refcal.DayOfUnix(begin.Unix())
+	endText := refcal.RFC3339Midnight(bday + days)
+	if kind == 4 {
+		// a file (of a foreign or older writer) whose recorded end is not midnight:
+		// it still belongs to the week named by its end date
+		endText = refcal.Date(bday+days) + []string{"T12:00:00Z", "T00:00:01Z", "T23:59:59Z"}[t.Draw(3)]
+		kind = 0
+	}
 	meta := refformat.MetaText([][2]string{
-		{"TimeBegin", refcal.RFC3339Midnight(bday)}, {"TimeEnd", refcal.RFC3339Midnight(bday + days)},
+		{"TimeBegin", refcal.RFC3339Midnight(bday)}, {"TimeEnd", endText},
 		{"Program", pp.Path}, {"Version", ver}, {"GoVersion", gv}, {"GOOS", plat[0]}, {"GOARCH", plat[1]},
 	})
 	var pairs []refformat.Pair
